@@ -1342,16 +1342,24 @@ func ExistExpr(query *Query, current Map, expr *sqlparser.ExistsExpr, opts ...Ex
 	if err != nil {
 		return false, err
 	}
+	// the subquery sees every nested row extended with the outer row's columns; the rows
+	// (and the array holding them) belong to the caller, so the extension is made on copies
+	from := make([]any, len(q.from))
 	for i := 0; i < len(q.from); i++ {
 		item, ok := q.from[i].(Map)
 		if !ok {
 			return false, INVALID_TYPE.Extend(fmt.Sprintf("failed to build `EXIST` expression. expected an object but found %T", item))
 		}
-		for key, value := range current {
-			item[key] = value
+		extended := make(Map, len(item)+len(current))
+		for key, value := range item {
+			extended[key] = value
 		}
-		q.from[i] = item
+		for key, value := range current {
+			extended[key] = value
+		}
+		from[i] = extended
 	}
+	q.from = from
 	rs, err := q.exec()
 	array, ok := rs.([]any)
 	if !ok {
